@@ -178,6 +178,13 @@ def run(ctx):
     for _ in range(150 if quick else 2000):
         for kind, l, r in sugar_pairs(rng, g):
             cases.append((kind, l, r))
+    # if C then A else B = (?(C) A, !(C) B) also when C binds names: they stay inside C in all three places
+    CONDS = ["(let X := 2; (== X))", "(let X := 2; let Y := 3; (== X))", "((|X| X 2 ?eq))", "(let X := dup; X 2 ?lt)", "(== 2)"]
+    ARMS = ["0", "(let X := 7; X)", "X", "(let Y := 1; Y)", "(|X| X 1 add)", "(let X := 7; let Y := X; Y)"]
+    for C in CONDS:
+        for A in ARMS:
+            for B in ARMS:
+                cases.append(("if", "let X := 5; (1, 2, 3) if %s then %s else %s" % (C, A, B), "let X := 5; (1, 2, 3) (?(%s) %s, !(%s) %s)" % (C, A, C, B)))
     # infix assertions whose operands contain blocks that contain infix assertions (the sugar binds
     # the same two hidden names at every level: the innermost binding must win inside a block)
     OPERANDS = ["1", "({(3 == 3) 1} apply)", "({(1 == 2) 1, 2} apply)", "(2 {(|X| (X == 2) X)} apply)", "((1 == 1) 1)",
